@@ -36,10 +36,10 @@ Section Valid.
   Variable K : nat.
 
   Theorem valid_inv_run : forall ops, Forall no_disconnect ops ->
-    linv K valid_entry (fun _ => True) valid_msg (run cf (init K) ops).
+    linv K valid_entry (fun _ => True) valid_msg (fun _ _ => True) (run cf (init K) ops).
   Proof.
     intros ops Hok.
-    apply (run_linv cf K valid_entry (fun _ => True) valid_msg no_disconnect); auto.
+    apply (run_linv cf K valid_entry (fun _ => True) valid_msg (fun _ _ => True) no_disconnect); auto.
     - (* mono E *) intros ls ls' n e Hle H Ho. destruct (H Ho). split; auto. eapply walk_mono; eauto.
     - (* mono M *) intros ls ls' m Hle [H1 H2]. split; auto. eapply walk_mono; eauto.
     - (* disc *) intros a b [].
